@@ -24,6 +24,7 @@ type Clause struct {
 
 type LoopSpec struct {
 	Invs        []*Clause
+	BackEdge    []*Clause // checked on every back edge (never assumed at the head): what an iteration that continues has done
 	Decr        *Clause
 	Modifies    []*Clause
 	HasModifies bool
@@ -100,7 +101,7 @@ type PkgSpec struct {
 
 var clauseKeywords = map[string]bool{
 	"use": true, "func": true, "props": true, "requires": true, "ensures": true, "modifies": true,
-	"loop": true, "invariant": true, "decreases": true, "flags": true, "ghost": true, "assert": true, "assume": true, "label": true, "bind": true, "unreachable": true, "table": true, "define": true,
+	"loop": true, "invariant": true, "backedge": true, "decreases": true, "flags": true, "ghost": true, "assert": true, "assume": true, "label": true, "bind": true, "unreachable": true, "table": true, "define": true,
 }
 
 func splitLabel(kw string) (string, string) {
@@ -274,7 +275,7 @@ func parseContractFile(path, pkgPath string, ps *PkgSpec) error {
 					as.Ordinal, _ = strconv.Atoi(fs[3][j+1:])
 				}
 				cur.Asserts = append(cur.Asserts, as)
-			case "requires", "ensures", "modifies", "invariant", "decreases", "assert", "assume":
+			case "requires", "ensures", "modifies", "invariant", "backedge", "decreases", "assert", "assume":
 				cl := &Clause{Label: label, Src: rest, File: path, Line: lineNo}
 				all = append(all, cl)
 				lastClause = cl
@@ -301,6 +302,11 @@ func parseContractFile(path, pkgPath string, ps *PkgSpec) error {
 						return fmt.Errorf("%s:%d: invariant outside loop", path, lineNo)
 					}
 					curLoop.Invs = append(curLoop.Invs, cl)
+				case "backedge":
+					if curLoop == nil {
+						return fmt.Errorf("%s:%d: backedge outside loop", path, lineNo)
+					}
+					curLoop.BackEdge = append(curLoop.BackEdge, cl)
 				case "decreases":
 					if curLoop == nil {
 						return fmt.Errorf("%s:%d: decreases outside loop", path, lineNo)
